@@ -90,6 +90,9 @@ func (f *ReadFromString) Call(s *slip.Scope, args slip.List, depth int) slip.Obj
 		for pos := 1; pos < len(args); pos++ {
 			if sym, ok = args[pos].(slip.Symbol); ok && 1 < len(sym) && sym[0] == ':' { // keyword
 				pos++
+				if len(args) <= pos {
+					slip.ErrorPanic(s, depth, "%s missing an argument", sym)
+				}
 				switch sym {
 				case slip.Symbol(":start"):
 					if num, ok2 := args[pos].(slip.Fixnum); ok2 {
